@@ -390,6 +390,38 @@ class _rewrite_captured_vars(ast.NodeTransformer):
         return any([a == a_name for frames in self._ignore_stack for a in frames])
 
 
+def _free_names(node: ast.AST) -> set:
+    "The names read in an expression that none of its own lambdas or comprehensions binds"
+    free = set()
+
+    def walk(n: ast.AST, bound: frozenset):
+        if isinstance(n, ast.Name):
+            if n.id not in bound:
+                free.add(n.id)
+        elif isinstance(n, ast.Lambda):
+            a = n.args
+            for d in a.defaults + [d for d in a.kw_defaults if d is not None]:
+                walk(d, bound)
+            params = a.posonlyargs + a.args + a.kwonlyargs
+            params += [x for x in (a.vararg, a.kwarg) if x is not None]
+            walk(n.body, bound | {p.arg for p in params})
+        elif isinstance(n, (ast.ListComp, ast.SetComp, ast.GeneratorExp, ast.DictComp)):
+            inner = bound
+            for g in n.generators:
+                walk(g.iter, inner)
+                inner = inner | {t.id for t in ast.walk(g.target) if isinstance(t, ast.Name)}
+                for i in g.ifs:
+                    walk(i, inner)
+            for part in [n.key, n.value] if isinstance(n, ast.DictComp) else [n.elt]:
+                walk(part, inner)
+        else:
+            for c in ast.iter_child_nodes(n):
+                walk(c, bound)
+
+    walk(node, frozenset())
+    return free
+
+
 class _resolve_called_lambdas(ast.NodeTransformer):
     """Resolve any `(lambda x: x + 1)(y)` calls into just `y + 1`.
 
@@ -401,6 +433,7 @@ class _resolve_called_lambdas(ast.NodeTransformer):
     def __init__(self):
         self._arg_map_list: List[Dict[str, Union[ast.AST, str]]] = []
         self._used_names: Optional[set] = None
+        self._helper_names: set = set()
 
     def visit(self, node: ast.AST) -> Any:
         if self._used_names is None:
@@ -408,6 +441,11 @@ class _resolve_called_lambdas(ast.NodeTransformer):
             self._used_names = {n.id for n in ast.walk(node) if isinstance(n, ast.Name)} | {
                 n.arg for n in ast.walk(node) if isinstance(n, ast.arg)
             }
+            # Names the captured functions leave free (builtins, ...): a lambda or comprehension
+            # around the call must not bind them once the function's body is written there.
+            for n in ast.walk(node):
+                if isinstance(n, ast.Lambda) and getattr(n, "_own_scope", False):
+                    self._helper_names |= _free_names(n)
         return super().visit(node)
 
     def _bind_arguments(self, lambda_node: ast.Lambda, node: ast.Call) -> Optional[Dict[str, Any]]:
@@ -481,7 +519,7 @@ class _resolve_called_lambdas(ast.NodeTransformer):
         result: Dict[str, Union[ast.AST, str]] = {}
         for name in names:
             new_name, i = name, 0
-            if name in in_arguments:
+            if name in in_arguments or name in self._helper_names:
                 assert self._used_names is not None
                 while new_name in in_arguments or new_name in self._used_names:
                     i += 1
@@ -491,7 +529,9 @@ class _resolve_called_lambdas(ast.NodeTransformer):
         return result
 
     def visit_Lambda(self, node: ast.Lambda) -> Any:
-        if len(self._arg_map_list) == 0:
+        if len(self._arg_map_list) == 0 and not any(
+            a.arg in self._helper_names for a in node.args.args
+        ):
             return self.generic_visit(node)
         new_args = copy.copy(node.args)
         # Default values belong to the enclosing scope.
@@ -511,7 +551,11 @@ class _resolve_called_lambdas(ast.NodeTransformer):
         return ast.Lambda(args=new_args, body=new_body)
 
     def _visit_comprehension(self, node: Any) -> Any:
-        if len(self._arg_map_list) == 0:
+        if len(self._arg_map_list) == 0 and not any(
+            isinstance(n, ast.Name) and n.id in self._helper_names
+            for g in node.generators
+            for n in ast.walk(g.target)
+        ):
             return self.generic_visit(node)
         generators = []
         for g in node.generators:
